@@ -37,3 +37,162 @@ Definition number_prefix (n : nat) : Z := 256 - 2 ^ (8 - Z.of_nat n).
 Definition number_enc (v : Z) : bytes :=
   let n := number_extra v in
   (number_prefix n + (if (n <? 7)%nat then v / 256 ^ Z.of_nat n else 0)) :: le_bytes n v.
+
+(* ------------------------------------------------------------------ *)
+(* Lemmas (spec side only)                                             *)
+(* ------------------------------------------------------------------ *)
+From Coq Require Import ZifyBool.
+Ltac Zify.zify_post_hook ::= Z.to_euclidean_division_equations.
+
+Lemma wf_bytes_app a b : wf_bytes (a ++ b) = wf_bytes a && wf_bytes b.
+Proof. unfold wf_bytes. apply forallb_app. Qed.
+
+Lemma wf_bytes_firstn n bs : wf_bytes bs = true -> wf_bytes (firstn n bs) = true.
+Proof.
+  revert bs; induction n as [|n IH]; intros [|b r] H; try reflexivity.
+  cbn [firstn]. cbn [wf_bytes forallb] in *.
+  apply andb_true_iff in H as [Hb Hr]. rewrite Hb. apply (IH r Hr).
+Qed.
+
+Lemma wf_bytes_skipn n bs : wf_bytes bs = true -> wf_bytes (skipn n bs) = true.
+Proof.
+  revert bs; induction n as [|n IH]; intros [|b r] H; try reflexivity; try exact H.
+  cbn [skipn]. cbn [wf_bytes forallb] in H.
+  apply andb_true_iff in H as [Hb Hr]. apply (IH r Hr).
+Qed.
+
+(* the nine size classes of the minimal encoder *)
+Lemma number_extra_cases v : 0 <= v < 2^64 ->
+  (v < 2^7 /\ number_extra v = 0%nat) \/
+  (2^7 <= v < 2^14 /\ number_extra v = 1%nat) \/
+  (2^14 <= v < 2^21 /\ number_extra v = 2%nat) \/
+  (2^21 <= v < 2^28 /\ number_extra v = 3%nat) \/
+  (2^28 <= v < 2^35 /\ number_extra v = 4%nat) \/
+  (2^35 <= v < 2^42 /\ number_extra v = 5%nat) \/
+  (2^42 <= v < 2^49 /\ number_extra v = 6%nat) \/
+  (2^49 <= v < 2^56 /\ number_extra v = 7%nat) \/
+  (2^56 <= v < 2^64 /\ number_extra v = 8%nat).
+Proof.
+  intros Hv. unfold number_extra.
+  destruct (v <? 2^7) eqn:E0; [left; split; [lia|reflexivity]|right].
+  destruct (v <? 2^14) eqn:E1; [left; split; [lia|reflexivity]|right].
+  destruct (v <? 2^21) eqn:E2; [left; split; [lia|reflexivity]|right].
+  destruct (v <? 2^28) eqn:E3; [left; split; [lia|reflexivity]|right].
+  destruct (v <? 2^35) eqn:E4; [left; split; [lia|reflexivity]|right].
+  destruct (v <? 2^42) eqn:E5; [left; split; [lia|reflexivity]|right].
+  destruct (v <? 2^49) eqn:E6; [left; split; [lia|reflexivity]|right].
+  destruct (v <? 2^56) eqn:E7; [left; split; [lia|reflexivity]|right].
+  split; [lia|reflexivity].
+Qed.
+
+Lemma number_extra_le v : (number_extra v <= 8)%nat.
+Proof.
+  unfold number_extra.
+  repeat match goal with |- context[if ?c then _ else _] => destruct c eqn:? end; lia.
+Qed.
+
+(* evaluate the closed constants that appear once the size class is known *)
+Ltac num_consts n :=
+  let p := eval vm_compute in (number_prefix n) in change (number_prefix n) with p;
+  let z := eval vm_compute in (Z.of_nat n) in change (Z.of_nat n) with z;
+  repeat match goal with
+  | |- context[Z.pow ?a (Z.sub ?b ?c)] =>
+      let r := eval vm_compute in (Z.pow a (Z.sub b c)) in change (Z.pow a (Z.sub b c)) with r
+  end;
+  let b := eval vm_compute in (n <? 7)%nat in change (n <? 7)%nat with b;
+  cbv iota.
+
+Ltac split_ifs :=
+  repeat (match goal with |- context[if ?c then _ else _] => destruct c eqn:? end; try lia).
+
+(* first byte of the minimal encoding, per class *)
+Definition number_first (n : nat) (v : Z) : Z :=
+  number_prefix n + (if (n <? 7)%nat then v / 256 ^ Z.of_nat n else 0).
+
+Lemma number_enc_unfold v : number_enc v = number_first (number_extra v) v :: le_bytes (number_extra v) v.
+Proof. reflexivity. Qed.
+
+(* facts about the first byte for each class *)
+Lemma number_first_facts v : 0 <= v < 2^64 ->
+  let n := number_extra v in
+  let b := number_first n v in
+  0 <= b < 256 /\ leading_ones b = n /\
+  (if (n <? 7)%nat then b mod 2 ^ (7 - Z.of_nat n) else 0) * 256 ^ Z.of_nat n
+    + v mod 256 ^ Z.of_nat n = v.
+Proof.
+  intros Hv. cbv zeta.
+  destruct (number_extra_cases v Hv) as
+    [[H Hn]|[[H Hn]|[[H Hn]|[[H Hn]|[[H Hn]|[[H Hn]|[[H Hn]|[[H Hn]|[H Hn]]]]]]]]];
+  rewrite Hn; unfold number_first, leading_ones;
+  match goal with |- context[number_prefix ?n] => num_consts n end;
+  (split; [lia|split; [split_ifs; reflexivity|lia]]).
+Qed.
+
+Lemma number_enc_length v : 0 <= v < 2^64 -> (1 <= length (number_enc v) <= 9)%nat.
+Proof.
+  intros Hv. rewrite number_enc_unfold. cbn [length]. rewrite le_bytes_length.
+  pose proof (number_extra_le v). lia.
+Qed.
+
+Lemma number_enc_wf v : 0 <= v < 2^64 -> wf_bytes (number_enc v) = true.
+Proof.
+  intros Hv. rewrite number_enc_unfold. cbn [wf_bytes forallb].
+  fold (wf_bytes (le_bytes (number_extra v) v)). rewrite le_bytes_wf, andb_true_r.
+  destruct (number_first_facts v Hv) as [Hb _]. unfold is_byte. lia.
+Qed.
+
+(* the spec decoder on a first byte followed by exactly its extra bytes *)
+Lemma spec_number_cons b ex r :
+  length ex = leading_ones b ->
+  spec_number (b :: ex ++ r) =
+    Some ((if (leading_ones b <? 7)%nat then b mod 2 ^ (7 - Z.of_nat (leading_ones b)) else 0)
+            * 256 ^ Z.of_nat (leading_ones b) + le_value ex, r).
+Proof.
+  intros Hl. unfold spec_number. cbv zeta. rewrite <- Hl.
+  destruct (length (ex ++ r) <? length ex)%nat eqn:E.
+  { apply Nat.ltb_lt in E. rewrite app_length in E. lia. }
+  rewrite firstn_app_exact, skipn_app_exact. reflexivity.
+Qed.
+
+Theorem number_spec_enc v r : 0 <= v < 2^64 -> spec_number (number_enc v ++ r) = Some (v, r).
+Proof.
+  intros Hv. rewrite number_enc_unfold. cbn [app].
+  destruct (number_first_facts v Hv) as [Hb [Hlo Hval]].
+  rewrite spec_number_cons by (rewrite le_bytes_length; symmetry; exact Hlo).
+  rewrite Hlo, le_value_le_bytes by lia. rewrite Hval. reflexivity.
+Qed.
+
+Lemma leading_ones_le b : (leading_ones b <= 8)%nat.
+Proof.
+  unfold leading_ones.
+  repeat match goal with |- context[if ?c then _ else _] => destruct c eqn:? end; lia.
+Qed.
+
+Lemma Some_pair_inj {A B} (a c : A) (b d : B) : Some (a, b) = Some (c, d) -> a = c /\ b = d.
+Proof. intros H. inversion H. split; reflexivity. Qed.
+
+Theorem spec_number_range bs v r :
+  wf_bytes bs = true -> spec_number bs = Some (v, r) -> 0 <= v < 2^64.
+Proof.
+  intros Hwf Hs. destruct bs as [|b r0]; [discriminate|].
+  cbn [wf_bytes forallb] in Hwf. apply andb_true_iff in Hwf as [Hb Hr0].
+  fold (wf_bytes r0) in Hr0. unfold is_byte in Hb.
+  unfold spec_number in Hs. cbv zeta in Hs.
+  destruct (length r0 <? leading_ones b)%nat eqn:El; [discriminate|].
+  apply Nat.ltb_ge in El.
+  apply Some_pair_inj in Hs as [Hv _]. subst v.
+  pose proof (le_value_bound (firstn (leading_ones b) r0) (wf_bytes_firstn _ _ Hr0)) as Hlv.
+  rewrite firstn_length_le in Hlv by exact El.
+  clear El Hr0.
+  set (lv := le_value (firstn (leading_ones b) r0)) in *. clearbody lv.
+  pose proof (leading_ones_le b) as Hle.
+  set (n := leading_ones b) in *. clearbody n. revert Hlv.
+  do 9 (destruct n as [|n];
+        [match goal with |- context[Z.of_nat ?k] => num_consts k end; lia|]).
+  lia.
+Qed.
+
+Print Assumptions number_enc_length.
+Print Assumptions number_enc_wf.
+Print Assumptions number_spec_enc.
+Print Assumptions spec_number_range.
